@@ -37,6 +37,11 @@ class MemS3:
         self.hook: Optional[Callable[[str, str, Dict[str, Any]], None]] = None   # hook(op, key, kwargs) before the effect
         self.requests: List[tuple] = []
         self.real_clock_ages = False
+        # how a failed precondition of a conditional PUT is answered: "412" (PreconditionFailed), "409"
+        # (ConditionalRequestConflict: what S3 answers when a conflicting write landed while the request was in flight),
+        # or "alt" (alternating).  Both mean: the write did NOT happen.
+        self.conflict_code = "412"
+        self._conflicts = 0
 
     # ------------------------------------------------------------------ helpers
     def _call(self, op: str, key: str, kw: Dict[str, Any]) -> None:
@@ -84,9 +89,11 @@ class MemS3:
         if hasattr(Body, "read"):
             Body = Body.read()
         o = self.objects.get(Key)
-        if IfNoneMatch == "*" and o is not None:
-            raise _err("PreconditionFailed", "PutObject", 412)
-        if IfMatch is not None and (o is None or o["etag"] != IfMatch):
+        if (IfNoneMatch == "*" and o is not None) or (IfMatch is not None and (o is None or o["etag"] != IfMatch)):
+            self._conflicts += 1
+            use409 = self.conflict_code == "409" or (self.conflict_code == "alt" and self._conflicts % 2 == 1)
+            if use409:
+                raise _err("ConditionalRequestConflict", "PutObject", 409)
             raise _err("PreconditionFailed", "PutObject", 412)
         return {"ETag": self._put(Key, Body)}
 
